@@ -251,7 +251,7 @@ FACTORS = [0.01, 0.1, 0.25, 0.5, 2.0, 3.7, 10.0, 64.0, 100.0, 1000.0]
 
 
 def generate(tier, rng):
-    n_each = 50 if tier == "quick" else 2500
+    n_each = 200 if tier == "quick" else 6000
 
     def base(hk):
         sp = rng.randrange(len(SPACINGS))
